@@ -771,6 +771,11 @@ def generate_derivative_real_spherical_harmonics(l_max: int, theta: np.ndarray, 
     complex_expon = np.exp(-theta * 1.0j)  # Needed for derivative wrt to phi
     l_list = np.arange(l_max + 1)
     sph_harm_vals = generate_real_spherical_harmonics(l_max, theta, phi)
+    # SciPy only handles polar angles in [0, pi]: evaluate it at the same point of the sphere with
+    # the polar angle inside that range (azimuth shifted by pi whenever sin(phi) < 0).
+    outside = (phi < 0) | (phi > np.pi)
+    theta_scipy = np.where(outside & (np.sin(phi) < 0), theta + np.pi, theta)
+    phi_scipy = np.where(outside, np.arccos(np.cos(phi)), phi)
     i_output = 0
     for l_val in l_list:
         m_values = [0] + [m for x in range(1, l_val + 1) for m in (x, -x)]
@@ -798,7 +803,7 @@ def generate_derivative_real_spherical_harmonics(l_max: int, theta: np.ndarray, 
             # Compute it using SciPy, removing conway phase (-1)^m and multiply by 2^0.5.
             sph_harm_m = (
                 fac
-                * sph_harm_y(l_val, np.abs(int(m)) + 1, phi, theta)
+                * sph_harm_y(l_val, np.abs(int(m)) + 1, phi_scipy, theta_scipy)
                 * np.sqrt(2)
                 * (-1.0) ** float(m)
             )
